@@ -322,12 +322,58 @@ func c13(c *core.Ctx) {
 			if n < 2 {
 				c.Fail("client:peer-sites", getPeer.Pos(), "peer constructor must be used on both the unary and the streaming path, found %d call(s)", n)
 			}
+			// the peer option alone is enough: once RoundTrip has returned a reply, every path to a return passes
+			// SetPeer unless it leaves on the RoundTrip-error edge or on the "no peer options" edge (len(Peer) == 0)
+			for _, fn := range p.LibFuncs("httpgrpc") {
+				rts := core.CallsIn(fn, func(_ *ssa.Call, ci core.CallInfo) bool { return ci.Iface && ci.Name == "RoundTrip" })
+				if len(rts) == 0 || len(core.CallsIn(fn, func(_ *ssa.Call, ci core.CallInfo) bool { return ci.Static == getPeer })) == 0 {
+					continue
+				}
+				for _, rt := range rts {
+					isSetPeer := func(in ssa.Instruction) bool {
+						cc := core.CallOf(in)
+						return cc != nil && core.InfoOf(cc).Name == "SetPeer" && core.InfoOf(cc).Recv == "CallOptions"
+					}
+					visited := core.Walk(core.After(rt), isSetPeer, func(b *ssa.BasicBlock, si int) bool {
+						iff, ok := b.Instrs[len(b.Instrs)-1].(*ssa.If)
+						if !ok {
+							return true
+						}
+						f := core.CondFact(iff.Cond, si == 0)
+						// RoundTrip failed
+						if f.Op == token.NEQ && core.IsNilConst(f.Y) && core.OriginIs(f.X, func(o ssa.Value) bool { cr, idx, ok := core.CallResult(o); return ok && cr == rt && idx == 1 }) {
+							return false
+						}
+						// no peer option supplied: len(copts.Peer) <= 0 / == 0
+						if lc, ok := f.X.(*ssa.Call); ok {
+							if b2, isB := lc.Call.Value.(*ssa.Builtin); isB && b2.Name() == "len" {
+								if _, fld, isF := core.FieldOf(lc.Call.Args[0]); isF && fld == "Peer" {
+									if k, isC := core.ConstInt(f.Y); isC && k == 0 && (f.Op == token.LEQ || f.Op == token.EQL) {
+										return false
+									}
+								}
+							}
+						}
+						return true
+					})
+					bad := false
+					for _, r := range core.Returns(fn) {
+						if visited[r] {
+							bad = true
+						}
+					}
+					c.Check(!bad, core.FuncName(fn)+":peer-option-alone-suffices", rt.Pos(), "after a reply was obtained every path passes SetPeer, except where no peer option was supplied",
+						"after RoundTrip returned a reply a return is reachable without SetPeer although peer options may have been supplied (the report is tied to some other condition): a call with only grpc.Peer gets no peer")
+				}
+			}
 			// AuthInfo set iff tls != nil
 			okAuth := false
 			core.Instrs(getPeer, func(in ssa.Instruction) {
 				if st, ok := in.(*ssa.Store); ok {
 					if _, f, isF := core.FieldOf(st.Addr); isF && f == "AuthInfo" {
-						if core.GuardedExactlyBy(st, func(f core.Fact) bool { return f.Op == token.NEQ && core.IsNilConst(f.Y) && f.X == ssa.Value(getPeer.Params[1]) }) {
+						if core.GuardedExactlyBy(st, func(f core.Fact) bool {
+							return f.Op == token.NEQ && core.IsNilConst(f.Y) && f.X == ssa.Value(getPeer.Params[1])
+						}) {
 							okAuth = true
 						}
 					}
